@@ -678,8 +678,8 @@ var c17Part = evid.Part[C17Case]{
 			c.Keys = append(c.Keys, val.Txt(k))
 			n := rapid.SampledFrom([]int{0, 1, 5, 40, 300, 4096}).Draw(t, "clen")
 			if rapid.IntRange(0, 39).Draw(t, "big") == 0 {
-				// block sizes around the MiB (what a store may write in pieces)
-				n = rapid.SampledFrom([]int{1 << 20, 2 << 20, 1<<20 + 1, 1<<20 - 1}).Draw(t, "bigclen")
+				// block sizes around the MiB and beyond 4 MiB (what a store may write, or read, in pieces)
+				n = rapid.SampledFrom([]int{1 << 20, 2 << 20, 1<<20 + 1, 1<<20 - 1, 4<<20 + 1, 5 << 20}).Draw(t, "bigclen")
 			}
 			content := make([]byte, n)
 			fill := rapid.Byte().Draw(t, "fill")
